@@ -154,7 +154,18 @@ class Ranges:
         if k == 'loop':
             return self.loop_atom(a)
         if k == 'idx':
-            return self.atom(a[1]) if a[1][0] != 'val' else TOP
+            if a[1][0] != 'val':
+                return self.atom(a[1])
+            inner = a[1][1]
+            if isinstance(inner, (Poly, Const)):
+                return self.of(inner)            # an element of an array expression lies in the array's range
+            if isinstance(inner, Tup) and inner.items and all(isinstance(i, (Poly, Const)) for i in inner.items):
+                r = self.of(inner.items[0])
+                for i in inner.items[1:]:
+                    r = join(r, self.of(i))
+                return r
+            self.unknown.append(nf.fmt_atom(a)[:80])
+            return TOP
         if k == 'app':
             return self.app(a[1], a[2])
         self.unknown.append(nf.fmt_atom(a)[:80])
